@@ -30,6 +30,8 @@ def main():
         for t, v in zip(b, vs):
             outc[t["outcome"] + ":" + t["crash"]["type"] + ":" + t["crash"]["where"]] += 1
             for w in v["wits"]: wit[w] += 1
+            if v.get("unjudged"):
+                drifts["UNJUDGED"] += 1; ex_d.setdefault("UNJUDGED", (t["family"], t["seed"], v["drift"][0][2][0][:200]))
             taint = {x[0]: x[1] for x in v.get("taint", [])}
             for c, idx in v["fails"]:
                 prop = c.split(".")[0]
